@@ -1,7 +1,7 @@
 """C07 — I/O proportionality."""
 import numpy as np
 
-from .. import env, core, gen, files, readcheck, readops, iolog, spec
+from .. import env, core, gen, files, readcheck, readops, iolog, spec, synth
 from seismic_zfp.read import SgzReader  # noqa: E402
 
 ASSUMPTIONS = ["range reads observed at the file / blob object the reader is given (public constructor paths)",
@@ -29,7 +29,8 @@ def header_and_open_io(ctx, fi, rng):
                 s.r.gen_trace_header(t)
                 log = list(s.handle.log)
                 ctx.case(('hdr', desc['n'], t, blob))
-                want = sorted((spec.DISK * 2 + spec.DISK * fi.lay.n_blocks + k * spec.pad(4 * fi.n[0] * fi.n[1], 512) + 4 * t, 4)
+                stride = spec.pad(4 * fi.n[0] * fi.n[1], 512) if fi.version > spec.V_0_2_1 else 4 * fi.n[0] * fi.n[1]
+                want = sorted((s.data_start + spec.DISK * fi.lay.n_blocks + k * stride + 4 * t, 4)
                               for k in range(len(fi.arrays)))
                 got = sorted((o, l) for (o, l, _) in log)
                 if got != want:
@@ -73,6 +74,19 @@ def run(ctx):
                     s.close()
             if k % 4 == 0:
                 header_and_open_io(ctx, fi, rng)
+        # legacy files with ONE header block (format 0.0.x: no SEG-Y file-header block): open and reads, both backends
+        for k in range(6 if ctx.quick else 60):
+            n, bs, q = gen.geometry_3d(rng, klass='default', max_voxels=20_000)
+            fi = synth.make(ctx.path('legacy.sgz'), n, bs, q, rng, version=0, n_arrays=0, n_header_blocks=1)
+            ctx.stats['legacy_one_header_block'] += 1
+            header_and_open_io(ctx, fi, rng)
+            for blob in (False, True):
+                s = readcheck.ReadSession(fi, blob=blob)
+                try:
+                    ops = [o for o in readcheck.in_range_ops(rng, fi, 1) if o[0] not in ('hdr', 'tfv')]
+                    readcheck.check_ops(ctx, model, s, ops, props=('C07',), cold=True, tag='legacy-blob' if blob else 'legacy')
+                finally:
+                    s.close()
     finally:
         model.close()
 
